@@ -43,7 +43,7 @@ func checkC01(c *Ctx) {
 	c.rule("C01.R7", "statementQueue: the statement handed out is statements[pointer] read before a single +1 of pointer; no change when exhausted; the index is guarded against len", 3)
 	c.rule("C01.R8", "the continuation stack is pushed only in the constructor, the choice block, the if executor, the jump executor and RestoreAt; popped only in Next when the top queue is exhausted; elements name the current node", 8)
 	c.rule("C01.R9", "outside internal/tree no store goes to a field, slice element or map of an object of an internal/tree type unless the object was allocated in the same function", 1)
-	c.rule("C01.R11", "tree builder completeness: every callback literal installed on a listener stack or callback field consumes each of its parameters on every path (store or call argument)", 30)
+	c.rule("C01.R11", "tree builder completeness: every callback literal installed on a listener stack or callback field consumes each of its parameters on every path (store or call argument)", 8)
 	c.rule("C01.R12", "no failure is reported on behalf of a call that succeeded: every error variable handed to fmt.Errorf in the runner and the tree builder is entailed non-nil there", 5)
 	c.rule("C01.R13", "what a lookup hands back is used only where it is known to have been found: every use of v after `v, ok := f(…)` on a (T, bool) function of the runner and the tree builder is entailed by ok", 1)
 	c.rule("C01.R10", "tree builder re-entrancy: a listener field that is not a stack, is written by the handlers of a self-nesting grammar rule and is read later (in an Exit handler or a callback) would be overwritten by a nested occurrence of the same rule", 8)
